@@ -160,6 +160,7 @@ func (h *Handler) Handle(down *layer4.Connection, _ layer4.Handler) error {
 	for {
 		// choose an available upstream
 		upstream := h.LoadBalancing.SelectionPolicy.Select(h.Upstreams, down)
+		verifEv("proxy.select", upstream, upstream != nil)
 		if upstream == nil {
 			if proxyErr == nil {
 				proxyErr = fmt.Errorf("no upstreams available")
@@ -224,6 +225,7 @@ func (h *Handler) dialPeers(upstream *Upstream, repl *caddy.Replacer, down *laye
 			zap.String("remote", down.RemoteAddr().String()),
 			zap.String("upstream", hostPort),
 			zap.Error(err))
+		verifEv("proxy.dial", p, err == nil)
 
 		// Send the PROXY protocol header.
 		if err == nil {
@@ -344,6 +346,7 @@ func (h *Handler) countFailure(p *peer) {
 
 	// count failure immediately
 	err := p.countFail(1)
+	verifEv("proxy.fail.count", p, err == nil)
 	if err != nil {
 		h.HealthChecks.Passive.logger.Error("could not count failure",
 			zap.String("peer_address", p.address.String()),
@@ -360,6 +363,7 @@ func (h *Handler) countFailure(p *peer) {
 		}()
 		time.Sleep(failDuration)
 		err := p.countFail(-1)
+		verifEv("proxy.fail.forget", p, err == nil)
 		if err != nil {
 			h.HealthChecks.Passive.logger.Error("could not forget failure",
 				zap.String("peer_address", p.address.String()),
